@@ -610,6 +610,223 @@ fn svcb_builder_case(c: &mut Ctx, fam: &str, idx: u64, rng: &mut Rng) {
 }
 
 
+// ------------------------------------------------------------- builders ----
+
+/// Values assembled through the builder types: whatever order and chunking the caller uses, the
+/// finished value is the one the pushed content denotes (compared with a direct construction of
+/// the wire form), and it reads back through the ordinary parser.
+fn builders_case(c: &mut Ctx, fam: &str, idx: u64, rng: &mut Rng) {
+    use domain::base::charstr::CharStrBuilder;
+    use domain::base::iana::Rtype;
+    use domain::rdata::dnssec::{RtypeBitmap, RtypeBitmapBuilder};
+    use domain::rdata::rfc1035::TxtBuilder;
+    use octseq::builder::OctetsBuilder;
+    match rng.below(3) {
+        0 => {
+            // type bitmaps: types from a few windows, added in ascending, descending or shuffled order, with repeats
+            let nwin = rng.range(1, 6) as usize;
+            let mut wins: Vec<u8> = Vec::new();
+            while wins.len() < nwin {
+                let w_ = *rng.pick(&[0u8, 0, 1, 2, 3, 127, 128, 254, 255]);
+                let w_ = if rng.chance(1, 3) { rng.below(256) as u8 } else { w_ };
+                if !wins.contains(&w_) {
+                    wins.push(w_);
+                }
+            }
+            let mut types: Vec<u16> = Vec::new();
+            for w_ in &wins {
+                for _ in 0..rng.range(1, 4) {
+                    let low = match rng.below(4) { 0 => 0u16, 1 => 255, 2 => rng.below(8) as u16, _ => rng.below(256) as u16 };
+                    types.push(((*w_ as u16) << 8) | low);
+                }
+            }
+            let order_kind = rng.below(4);
+            match order_kind {
+                0 => types.sort_unstable(),
+                1 => { types.sort_unstable(); types.reverse(); }
+                _ => rng.shuffle(&mut types),
+            }
+            if rng.chance(1, 3) {
+                let d = *rng.pick(&types);
+                types.push(d);
+            }
+            // reference: windows ascending, each as long as its highest octet needs
+            let mut want: Vec<u8> = Vec::new();
+            let mut ws: Vec<u8> = types.iter().map(|t| (t >> 8) as u8).collect();
+            ws.sort_unstable();
+            ws.dedup();
+            for w_ in ws {
+                let mut bits = [0u8; 32];
+                let mut hi = 0usize;
+                for t in types.iter().filter(|t| (**t >> 8) as u8 == w_) {
+                    let low = (*t & 0xff) as usize;
+                    bits[low / 8] |= 0x80 >> (low % 8);
+                    hi = hi.max(low / 8);
+                }
+                want.push(w_);
+                want.push(hi as u8 + 1);
+                want.extend_from_slice(&bits[..=hi]);
+            }
+            let ex = || json!({"builder": "RtypeBitmapBuilder", "types_in_push_order": types});
+            let r = c.guard(fam, idx, ex, || {
+                let mut b = RtypeBitmapBuilder::<Vec<u8>>::new_vec();
+                for t in &types {
+                    b.add(Rtype::from_int(*t)).unwrap();
+                }
+                let bm = b.finalize();
+                let oct = bm.as_slice().to_vec();
+                let back = RtypeBitmap::from_octets(oct.clone()).is_ok();
+                let listed: Vec<u16> = bm.iter().map(|t| t.to_int()).collect();
+                let all_contained = types.iter().all(|t| bm.contains(Rtype::from_int(*t)));
+                (oct, back, listed, all_contained)
+            });
+            let Some((oct, back, listed, all_contained)) = r else { return };
+            let mut sorted = types.clone();
+            sorted.sort_unstable();
+            sorted.dedup();
+            if oct != want || !back || listed != sorted || !all_contained {
+                let shape = if oct != want { "octets" } else if !back { "not-read-back" } else if listed != sorted { "iter" } else { "contains" };
+                c.violation(&format!("builder:RtypeBitmapBuilder:{}", shape), &format!("types {:?} added in this order give the bitmap {}, expected {} (iter lists {:?})", types, hex(&oct), hex(&want), listed), c.replay_of(fam, idx, ex()));
+            }
+            if wins.len() >= 3 && order_kind >= 1 {
+                c.count("bitmap_builder_3plus_windows_out_of_order", 1);
+            }
+            c.count("builder_values", 1);
+            c.eval(&("bitmap-builder", wins.len(), order_kind, types.len().min(12)));
+        }
+        1 => {
+            // TXT: content pushed in chunks, with forced breaks and whole strings in between
+            #[derive(Debug)]
+            enum Op { Slice(Vec<u8>), U8(u8), Close, Str(Vec<u8>) }
+            let mut ops = Vec::new();
+            for _ in 0..rng.range(1, 8) {
+                ops.push(match rng.below(6) {
+                    0 => Op::Close,
+                    1 => Op::U8(rng.u8()),
+                    2 => { let l = *rng.pick(&[0usize, 1, 255, 10]); Op::Str(rng.bytes(l)) }
+                    3 => { let l = *rng.pick(&[254usize, 255, 256, 509, 510, 511, 700]); Op::Slice(rng.bytes(l)) }
+                    _ => { let l = rng.below(40) as usize; Op::Slice(rng.bytes(l)) }
+                });
+            }
+            // reference: a list of strings; an open one is filled up to 255 before a new one is started
+            let mut strs: Vec<Vec<u8>> = Vec::new();
+            let mut open = false;
+            for op in &ops {
+                match op {
+                    Op::Slice(sl) => {
+                        for b in sl {
+                            if !open || strs.last().map(|s| s.len() == 255).unwrap_or(true) {
+                                strs.push(Vec::new());
+                                open = true;
+                            }
+                            strs.last_mut().unwrap().push(*b);
+                        }
+                    }
+                    Op::U8(b) => {
+                        if !open || strs.last().map(|s| s.len() == 255).unwrap_or(true) {
+                            strs.push(Vec::new());
+                            open = true;
+                        }
+                        strs.last_mut().unwrap().push(*b);
+                    }
+                    Op::Close => open = false,
+                    Op::Str(st) => { strs.push(st.clone()); open = false; }
+                }
+            }
+            let content: Vec<u8> = strs.iter().flatten().copied().collect();
+            let ex = || json!({"builder": "TxtBuilder", "ops": format!("{:?}", ops).chars().take(300).collect::<String>()});
+            let r = c.guard(fam, idx, ex, || {
+                let mut b = TxtBuilder::<Vec<u8>>::new();
+                for op in &ops {
+                    match op {
+                        Op::Slice(sl) => b.append_slice(sl).map_err(|e| e.to_string())?,
+                        Op::U8(x) => b.append_u8(*x).map_err(|e| e.to_string())?,
+                        Op::Close => b.close_charstr(),
+                        Op::Str(st) => b.append_charstr(&domain::base::charstr::CharStr::from_octets(st.clone()).unwrap()).map_err(|e| e.to_string())?,
+                    }
+                }
+                let t = b.finish().map_err(|e| e.to_string())?;
+                let mut rd = Vec::new();
+                t.compose_rdata(&mut rd).unwrap();
+                let parts: Vec<Vec<u8>> = t.iter_charstrs().map(|s| s.as_slice().to_vec()).collect();
+                Ok::<_, String>((rd, parts))
+            });
+            let Some(r) = r else { return };
+            match r {
+                Err(e) => {
+                    if content.len() + strs.len() <= 65535 {
+                        c.violation("builder:TxtBuilder:refused", &format!("TxtBuilder refuses content of {} octets in {} strings: {}", content.len(), strs.len(), e), c.replay_of(fam, idx, ex()));
+                    }
+                }
+                Ok((rd, parts)) => {
+                    // the wire form is a sequence of strings that together hold the content in order; where the
+                    // caller forced no break every string but the last of a run is full
+                    let mut p = 0;
+                    let mut got: Vec<u8> = Vec::new();
+                    let mut framing_ok = true;
+                    while p < rd.len() {
+                        let l = rd[p] as usize;
+                        if p + 1 + l > rd.len() { framing_ok = false; break; }
+                        got.extend_from_slice(&rd[p + 1..p + 1 + l]);
+                        p += 1 + l;
+                    }
+                    let parts_flat: Vec<u8> = parts.iter().flatten().copied().collect();
+                    // an empty builder gives one empty string (a TXT record holds at least one)
+                    let want_parts: Vec<Vec<u8>> = if strs.is_empty() { vec![vec![]] } else { strs.clone() };
+                    if !framing_ok || got != content || parts_flat != content {
+                        c.violation("builder:TxtBuilder:content", &format!("TxtBuilder: {} octets pushed, the record holds {} ({} strings)", content.len(), got.len(), parts.len()), c.replay_of(fam, idx, ex()));
+                    } else if parts != want_parts {
+                        c.violation("builder:TxtBuilder:string-boundaries", &format!("TxtBuilder: strings of lengths {:?}, expected {:?}", parts.iter().map(|x| x.len()).collect::<Vec<_>>(), want_parts.iter().map(|x| x.len()).collect::<Vec<_>>()), c.replay_of(fam, idx, ex()));
+                    }
+                    c.count("builder_values", 1);
+                }
+            }
+            c.eval(&("txt-builder", ops.len(), strs.len().min(6), content.len() / 128));
+        }
+        _ => {
+            // character strings: appended piecewise; the 255 limit holds at every step
+            let mut pieces: Vec<Vec<u8>> = Vec::new();
+            for _ in 0..rng.range(1, 5) {
+                let l = *rng.pick(&[0usize, 1, 100, 127, 128, 254, 255, 256]);
+                pieces.push(rng.bytes(l));
+            }
+            let ex = || json!({"builder": "CharStrBuilder", "pieces": pieces.iter().map(|p| p.len()).collect::<Vec<_>>()});
+            let r = c.guard(fam, idx, ex, || {
+                let mut b = CharStrBuilder::<Vec<u8>>::new();
+                let mut acc: Vec<u8> = Vec::new();
+                let mut verdicts = Vec::new();
+                for p_ in &pieces {
+                    let before = b.as_slice().to_vec();
+                    let ok = b.append_slice(p_).is_ok();
+                    let fits = acc.len() + p_.len() <= 255;
+                    if ok { acc.extend_from_slice(p_); }
+                    verdicts.push((ok, fits, ok || b.as_slice() == &before[..]));
+                }
+                let cs = b.finish();
+                let mut wire = Vec::new();
+                cs.compose(&mut wire).unwrap();
+                (verdicts, acc, wire)
+            });
+            let Some((verdicts, acc, wire)) = r else { return };
+            for (ok, fits, unchanged) in &verdicts {
+                if ok != fits {
+                    c.violation(&format!("builder:CharStrBuilder:{}", if *ok { "accepts-beyond-255" } else { "refuses-within-255" }), "CharStrBuilder::append_slice and the 255-octet limit disagree", c.replay_of(fam, idx, ex()));
+                }
+                if !unchanged {
+                    c.violation("builder:CharStrBuilder:failed-append-changed-the-builder", "a refused append_slice changed the builder", c.replay_of(fam, idx, ex()));
+                }
+            }
+            let mut want = vec![acc.len() as u8];
+            want.extend_from_slice(&acc);
+            if acc.len() <= 255 && wire != want {
+                c.violation("builder:CharStrBuilder:content", &format!("CharStrBuilder: {} octets accepted, composes to {} octets", acc.len(), wire.len()), c.replay_of(fam, idx, ex()));
+            }
+            c.count("builder_values", 1);
+            c.eval(&("charstr-builder", pieces.len(), acc.len() / 32));
+        }
+    }
+}
+
 // ------------------------------------------------------------ serde routes --
 
 /// The building blocks of record data that have hand-written `Deserialize` impls receive raw
@@ -754,7 +971,16 @@ fn serde_fields(c: &mut Ctx, fam: &str, idx: u64, rng: &mut Rng) {
 }
 
 pub fn run(c: &mut Ctx) {
-    c.families(3);
+    c.families(4);
+    let fam = "builders";
+    let total = c.total(120_000, 10_000_000);
+    for idx in c.cases(fam, total) {
+        if c.out_of_time() {
+            break;
+        }
+        let mut rng = c.case_rng(fam, idx);
+        builders_case(c, fam, idx, &mut rng);
+    }
     let fam = "serde";
     let total = c.total(120_000, 10_000_000);
     for idx in c.cases(fam, total) {
@@ -819,6 +1045,8 @@ pub fn run(c: &mut Ctx) {
         c.floor("mutants_rejected", 100);
         c.floor("opt_records", 10);
         c.floor("serde_values", 1000);
+        c.floor("builder_values", 1000);
+        c.floor("bitmap_builder_3plus_windows_out_of_order", 100);
         c.floor("serde_refusals", 1000);
     }
 }
